@@ -437,9 +437,13 @@ class Check:
             with open(behaviours_path) as f:
                 first = f.readline().strip()
             if first:
-                steps = json.loads(first)
-                self.samples.append({"stage": name, "behaviour": [{"op": s["op"], "a": s["a"], "res": s.get("pres", "ok"),
-                                                                    "reads": sorted([o.get("t", o.get("i")), o["k"], o["p"]] for o in s["obs"])} for s in steps]})
+                steps = json.loads(first)[:12]
+                if steps and isinstance(steps[0], dict) and "a" in steps[0] and "obs" in steps[0]:
+                    beh = [{"op": s["op"], "a": s["a"], "res": s.get("pres", "ok"),
+                            "reads": sorted([o.get("t", o.get("i")), o["k"], o["p"]] for o in s["obs"])} for s in steps]
+                else:
+                    beh = steps
+                self.samples.append({"stage": name, "behaviour": beh})
 
     def finish(self):
         wall = time.time() - self.t0
